@@ -538,6 +538,11 @@ class StokesLandscape(Landscape):
             dtype = np.int32
         else:
             dtype = np.int64
+            if not jax.config.jax_enable_x64:
+                raise ValueError(
+                    f'the indices of a landscape of {len(self)} pixels do not fit in 32 bits: '
+                    f'the 64-bit mode of JAX is required (jax_enable_x64).'
+                )
         if len(coords) == 0:
             raise TypeError('Pixel coordinates are not specified.')
 
